@@ -313,6 +313,11 @@ class C13(core.PropBase):
                     yield {"k": "b", "s": f"-{b}--{a}:2" if a else f"-{b}-0:2"}
         for _ in range(20000 if thorough else 3000):
             yield {"k": "b", "s": rand_big(rng)}
+        # 3b'. numbers with as many digits as int() reads at most (4300), both signs, alone and in short ranges
+        for nd in (4299, 4300):
+            for m in (10 ** (nd - 1), 10 ** nd - 1, 10 ** nd - 7):
+                for t in (f"{m}", f"-{m}", f"{m - 3}-{m}", f"-{m}--{m - 3}", f"-{m}--{m - 6}:3", f"-{m},5,{m}", f"-{m}-{m}:{m}"):
+                    yield {"k": "b", "s": t}
         # 3c. expressions of a thousand and more elements (nothing merges: squares, alternating gaps): recursion budgets
         #     and quadratic loops show only here
         for k in ((600, 1100, 2500, 4000) if thorough else (1100, 2500)):
